@@ -26,7 +26,7 @@ UNDERFLOW = 1e-15   # gradient tensors below this magnitude are in float32's squ
 # sha256 of the definitions (comments / blank lines stripped) of the two generated files the whole-step model is built
 # from, as lifted from the pinned tree.  While both match, a disagreement between `advstep.fit` and the Fraction oracle
 # is a bug of this machinery (exit 2); after a source edit that changed a lifted file it is a broken tie (exit 1).
-PINNED_GEN_SHA256 = {"AdvProjection.lean": "238c40171dee892da779fa6c615ff5483a5b83c1d1eb2a7d8dc70b3fbbd0f26c", "AdvScheduleSrc.lean": "d1151c5572deedc54ec4c03818fe62ae860ae65bddf3cacc823bbc6d705dc713"}
+PINNED_GEN_SHA256 = {"AdvProjection.lean": "238c40171dee892da779fa6c615ff5483a5b83c1d1eb2a7d8dc70b3fbbd0f26c", "AdvScheduleSrc.lean": "2a6782c3963fb6a11e55dd01c69785874c9377aa8b68efd6fe5be320e2bc5775"}
 _GEN_STATE = {}
 
 
